@@ -475,6 +475,29 @@ def fam_scalars() -> Iterator[dict]:
                        "outs": {"out": 3, "out_b": 4}}
 
 
+def fam_logical_nonbool() -> Iterator[dict]:
+    """logical_and / logical_or / logical_not on NON-boolean operands (integer flags, floats
+    incl. -0.0 and a negative number, mixed with booleans): truth is `!= 0`, not a bit
+    pattern (1 & 2 == 0 but both are true)."""
+    i = {"name": "i", "shape": [6], "dtype": "i4", "kind": "ph", "data": [0, 1, 2, 0, 3, 4]}
+    j = {"name": "j", "shape": [6], "dtype": "i4", "kind": "ph", "data": [2, 2, 1, 0, 0, 3]}
+    f = {"name": "f", "shape": [6], "dtype": "f8", "kind": "ph",
+         "data": [0.0, 0.5, -0.0, -1.0, 2.5, 0.0]}
+    b = {"name": "b", "shape": [6], "dtype": "b1", "kind": "ph",
+         "data": [True, False, True, False, True, True]}
+    pairs = [(1, 2, "ij"), (2, 1, "ji"), (1, 3, "if"), (3, 1, "fi"), (3, 4, "fb"), (4, 1, "bi"),
+             (3, 3, "ff")]
+    for op in ("logical_and", "logical_or"):
+        for a, c, tag in pairs:
+            yield {"id": f"logical/{op}/{tag}", "inputs": [i, j, f, b],
+                   "calls": [{"op": op, "a": a, "b": c},
+                             {"op": "where", "c": 5, "a": 3, "b": {"py": "float", "v": "-9.0"}}],
+                   "outs": {"out": 5, "out_b": 6}}
+    for a, tag in ((1, "i"), (3, "f")):
+        yield {"id": f"logical/not/{tag}", "inputs": [i, j, f, b],
+               "calls": [{"op": "logical_not", "a": a}], "outs": {"out": 5}}
+
+
 def fam_same_buffer() -> Iterator[dict]:
     """ONE ndarray object wrapped by TWO DataWrapper nodes of one graph, the wrappers equal
     or differing in a tag (array tag, axis tag, Named, PrefixNamed): each wrapper is an
